@@ -1,4 +1,4 @@
-U = ['src/containers/qhashtbl.c']
+U = ['src/containers/qhashtbl.c', 'src/utilities/qhash.c']
 P = ['C05', 'C11', 'C12', 'C14', 'C15']
 INST = [dict(HR=r, HN=n, **({} if n <= 2 else {'tier': 'thorough'})) for r in (1, 2, 3) for n in (0, 1, 2, 3, 4)]
 
